@@ -22,7 +22,7 @@ import multiprocessing
 from . import core
 from .core import Ctx, Violation, Precondition, SimCrash, Rng, h64
 
-RUN_TIMEOUT_S = int(os.environ.get("VERIF_RUN_TIMEOUT_S", "120"))
+RUN_TIMEOUT_S = int(os.environ.get("VERIF_RUN_TIMEOUT_S", "60"))
 BLOCK = 32
 
 
